@@ -120,6 +120,18 @@ func totalRender(ctx *fw.Ctx, files []srcFile, globals map[string]ref.Value, ent
 	}
 	if rerr != nil {
 		ctx.Obs("render_errors", 1)
+		// the same Tofu once more after the failure, twice: what a failed render leaves behind must not turn the next
+		// failure into a panic (the results themselves are C08's business)
+		for rep := 0; rep < 2; rep++ {
+			buf.Reset()
+			armRenderBudget()
+			if useTofuRender {
+				_ = tofu.Render(&buf, entry, goData(d))
+			} else {
+				_, _ = render(tofu, entry, d, ij, nil)
+			}
+		}
+		ctx.Obs("renders_after_a_failed_one", 2)
 	} else {
 		ctx.Obs("render_ok", 1)
 	}
